@@ -2149,7 +2149,9 @@ pub fn set_index(
                     }
                     Ok(())
                 } else {
-                    todo!("assgn to slice")
+                    Err(NErr::type_error(
+                        "can't assign to a slice (only `every x[a:b] = ...` is supported)".to_string(),
+                    ))
                     // set_index(pythonic_mut(&mut Rc::make_mut(v), i)?, rest, value)
                 }
             }
